@@ -213,6 +213,7 @@ def run_config(args):
             for c, probs in explore(run, pre=[], backend='inproc', ints=ints, decide_timeout=5, max_paths=20000):
                 res['paths'] += 1
                 res['queries'] += c.decision_queries
+                res['solver_seconds'] = res.get('solver_seconds', 0.0) + c.decision_seconds
                 if probs and len(res['bad']) < 3:
                     v, model = c.model()
                     res['bad'].append(dict(problems=sorted(set(probs)), model={k: str(x) for k, x in model.items() if x is not None}))
@@ -308,6 +309,7 @@ def main(report, tier, seed, workers, calibrate=False):
         report.record(r['name'], verdict, r['seconds'], backend='z3py-inproc', sha=f"{r['paths']}p{r['queries']}q:{r['idx']}",
                       group=f"n={r['name'].split(' ')[0][2:]} steps", detail=dict(paths=r['paths'], queries=r['queries']))
         solver.STATS.queries += r['queries']
+        solver.STATS.seconds += r.get('solver_seconds', 0.0)
         solver.STATS.by_backend['z3py-inproc'] = solver.STATS.by_backend.get('z3py-inproc', 0) + r['queries']
         for b in r['bad'][:1]:
             try:
